@@ -176,6 +176,10 @@ def run_shard(shard):
                     for s in (f"if x:\n{u1}{u2}y\n{u2 if len(u2) < len(u1 + u2) else u1}z\n", f"if x:\n{u1}{u1}y\n{u2}z\n", f"def f():\n{u1}if a:\n{u1}{u2}{u2}b\n{u1}{u2}c\n"):
                         both(s, "indent-family")
                         both("x = 1\n" + s + "w = 2\n", "indent-family")
+                        both(gen_py.backslash_line_mutant(rnd, s), "indent-family-backslash-line")
+                    # the indentation is measured on a backslash-only line, the error is found on the (unindented) line after it
+                    both(f"if x:\n{u1}{u1}y\n{u2}\\\nz\n", "indent-family-backslash-line")
+                    both(f"if x:\n{u1}if y:\n{u1}{u1}a\n{u2}\\\nelse:\n{u1}b\n", "indent-family-backslash-line")
         for s in gen_xonsh.UNTERMINATED:
             for v in (s, s + "\n", "x = 1\n" + s, s + "\nx = 1\n", "\n\n" + s + "\n   "):
                 both(v, "unterminated")
